@@ -13,6 +13,7 @@ From SCC Require Import Model.RunLin.
 From SCC Require Import Base.Sexp Model.RunBase Model.RunCheck.
 From SCC Require Import Model.RunFmt.
 From SCC Require Import Model.RunHeapOps.
+From SCC Require Import Model.RunHeapFull.
 From SCC Require Import Model.RunC01.
 From SCC Require Import Model.RunRobust.
 From SCC Require Import Model.RunWtStages.
@@ -52,6 +53,7 @@ Definition dispatch (cmd : string) (input : string) : string :=
   | "robust-lit" => run_robust_lit input
   | "fmt" => run_fmt input
   | "heapops-x86" => run_heapops_x86 input
+  | "heapfull-x86" => run_heapfull_x86 input
   | "sizes" => run_sizes input
   | "c10-a64" => run_c10_a64 input
   | "show-heap-a64" => run_show_heap_a64 input
